@@ -10,6 +10,7 @@ from ..explorer import run_once
 from ..nd import explore_nd
 
 PID = "C03"
+BOTH_CONSTRUCTION_PATHS = True  # every program once with constructor-built and once with decorator-built nodes (mc/dsl.py VIA)
 LEVEL = "model_checking"
 TECHNIQUE = "explicit-state model checking of the real scheduler with nondeterministic gate functions (every admissible decision at every evaluation) and nondeterministic data nodes, state pruning at superstep boundaries, gate trace monitor on every execution"
 LEVEL_TEXT = (
